@@ -17,8 +17,8 @@ REPLAY = {'scenario': 'jws_policy'}
 P, U = ('leaf', 'protected'), ('leaf', 'unprotected')
 
 
-def run(ctx, prog):
-    A = Auditor(ctx, prog)
+def run(ctx, prog, only=None):
+    A = Auditor(ctx, prog, only=only)
 
     # ----------------------------------------------------------------------------------- validate_jws_headers = conjunction
     f = prog.one(r'(^|::)validate_jws_headers$')
